@@ -40,7 +40,7 @@ variable {V : Type}
 
 /-- Every call receives at most one reply, whatever happens later in the history (also for the
 code before repair C10-01: no hypothesis on `env`). -/
-theorem at_most_one_reply (env : Env V) (ex : Exports) (ops : List (Op V)) (hwf : HistoryNamed ex ops)
+theorem at_most_one_reply (env : Env V) (ex : Exports) (ops : List (Op V))
     (k : Nat) :
     (replies (eventsOf k (run env ex ops).2)).length ≤ 1 := by
   rw [eventsOf_run]
@@ -52,7 +52,7 @@ theorem at_most_one_reply (env : Env V) (ex : Exports) (ops : List (Op V)) (hwf 
     | exportObj pa o => rw [callEvents_not_call _ _ _ _ (by simp [hk])]; simp [replies]
     | unexportObj pa => rw [callEvents_not_call _ _ _ _ (by simp [hk])]; simp [replies]
     | call c b =>
-      rw [replies_callEvents env ex ops k (hwf k) c b hk]
+      rw [replies_callEvents env ex ops k c b hk]
       rcases immediate_or_later env ops k c b (verdict (exportsAt ex ops k) c) with h | h
       · rw [h]; simpa [replies] using (callReplies_replyish env k c b _).replies_le
       · rw [h]; simpa [replies] using (laterEvents_replyish env ops k c b _).replies_le
@@ -61,7 +61,7 @@ theorem at_most_one_reply (env : Env V) (ex : Exports) (ops : List (Op V)) (hwf 
 Deferred that never fires in the history, in which case it has received none (yet).
 (`TextTotal env`: the repaired `send_error`.) -/
 theorem exactly_one_if_expected (env : Env V) (ht : TextTotal env) (ex : Exports) (ops : List (Op V))
-    (hwf : HistoryNamed ex ops) (k : Nat) (c : Call V) (b : Nat → Outcome V)
+    (k : Nat) (c : Call V) (b : Nat → Outcome V)
     (hk : ops[k]? = some (.call c b)) (he : c.expectReply = true) :
     ((∃ f m, verdict (exportsAt ex ops k) c = .run f m ∧ resultOf ops k (b f.id) = none) →
         replies (eventsOf k (run env ex ops).2) = []) ∧
@@ -70,9 +70,9 @@ theorem exactly_one_if_expected (env : Env V) (ht : TextTotal env) (ex : Exports
   rw [eventsOf_run]
   constructor
   · rintro ⟨f, m, hv, hr⟩
-    rw [replies_run env ex ops k (hwf k) c b hk f m hv he, hr]
+    rw [replies_run env ex ops k c b hk f m hv he, hr]
   · intro hno
-    rw [replies_callEvents env ex ops k (hwf k) c b hk]
+    rw [replies_callEvents env ex ops k c b hk]
     cases hp : callPending k c b (verdict (exportsAt ex ops k) c) with
     | none =>
       have h1 := callReplies_one env ht k c b _ he hp
@@ -92,13 +92,13 @@ theorem exactly_one_if_expected (env : Env V) (ht : TextTotal env) (ex : Exports
 /-- A call flagged as expecting no reply that is dispatched to its implementation (user code was
 invoked for it) receives no reply, now or when a returned Deferred fires. -/
 theorem none_if_no_reply_and_dispatched (env : Env V) (ex : Exports) (ops : List (Op V))
-    (hwf : HistoryNamed ex ops) (k : Nat) (c : Call V) (b : Nat → Outcome V)
+    (k : Nat) (c : Call V) (b : Nat → Outcome V)
     (hk : ops[k]? = some (.call c b)) (he : c.expectReply = false)
     (hd : invocations (eventsOf k (run env ex ops).2) ≠ []) :
     replies (eventsOf k (run env ex ops).2) = [] := by
   rw [eventsOf_run] at hd ⊢
-  rw [invocations_callEvents env ex ops k (hwf k) c b hk] at hd
-  rw [replies_callEvents env ex ops k (hwf k) c b hk]
+  rw [invocations_callEvents env ex ops k c b hk] at hd
+  rw [replies_callEvents env ex ops k c b hk]
   cases hv : verdict (exportsAt ex ops k) c with
   | run f m =>
     obtain ⟨h1, h2⟩ := callReplies_noreply_run env k c b f m he
@@ -113,10 +113,10 @@ theorem none_if_no_reply_and_dispatched (env : Env V) (ex : Exports) (ops : List
 
 /-- Every reply to a call carries the call's serial as `reply_serial` and the call's sender as
 destination - including replies sent later when a Deferred fires. -/
-theorem reply_addressing (env : Env V) (ex : Exports) (ops : List (Op V)) (hwf : HistoryNamed ex ops)
+theorem reply_addressing (env : Env V) (ex : Exports) (ops : List (Op V))
     (k : Nat) (c : Call V) (b : Nat → Outcome V) (hk : ops[k]? = some (.call c b)) :
     ∀ m ∈ replies (eventsOf k (run env ex ops).2), AddressedTo c m := by
-  rw [eventsOf_run, replies_callEvents env ex ops k (hwf k) c b hk]
+  rw [eventsOf_run, replies_callEvents env ex ops k c b hk]
   intro m hm
   rw [List.mem_append] at hm
   rcases hm with hm | hm
@@ -142,13 +142,13 @@ The invocations of user code for a call are exactly: the bound implementation, o
 decoded arguments and the sender iff it asks for it, when the call is `Runnable` (path exported,
 member on the addressed or first matching interface, signatures equal, something bound; not a
 call the handler answers itself); nothing otherwise.  No later operation adds an invocation. -/
-theorem runs_iff (env : Env V) (ex : Exports) (ops : List (Op V)) (hwf : HistoryNamed ex ops)
+theorem runs_iff (env : Env V) (ex : Exports) (ops : List (Op V))
     (k : Nat) (c : Call V) (b : Nat → Outcome V) (hk : ops[k]? = some (.call c b)) :
     (∀ f m, Runnable (exportsAt ex ops k) c f m →
         invocations (eventsOf k (run env ex ops).2) = [expectedInvocation c f]) ∧
     ((¬ ∃ f m, Runnable (exportsAt ex ops k) c f m) → invocations (eventsOf k (run env ex ops).2) = []) ∧
     (invocations (eventsOf k (run env ex ops).2) ≠ [] ↔ ∃ f m, Runnable (exportsAt ex ops k) c f m) := by
-  rw [eventsOf_run, invocations_callEvents env ex ops k (hwf k) c b hk]
+  rw [eventsOf_run, invocations_callEvents env ex ops k c b hk]
   refine ⟨?_, ?_, ?_⟩
   · intro f m hr
     rw [(verdict_run_iff _ c f m).mpr hr]
@@ -180,7 +180,7 @@ exported (at the time the call arrives); UnknownMethod: the member is not on the
 any) interface; InvalidArgs: the signature differs from the declared one - carrying the call's
 serial and sender, and no user code runs.  (The texts are the source's, `unknownObjectErr` etc.;
 only the names are pinned here.) -/
-theorem lookup_failure_reply (env : Env V) (ex : Exports) (ops : List (Op V)) (hwf : HistoryNamed ex ops)
+theorem lookup_failure_reply (env : Env V) (ex : Exports) (ops : List (Op V))
     (k : Nat) (c : Call V) (b : Nat → Outcome V) (hk : ops[k]? = some (.call c b))
     (hh : handledByHandler (exportsAt ex ops k) c = false) :
     (exported (exportsAt ex ops k) c.path = none →
@@ -196,7 +196,7 @@ theorem lookup_failure_reply (env : Env V) (ex : Exports) (ops : List (Op V)) (h
       eventsOf k (run env ex ops).2 = [invalidArgsErr c m] ∧
       ∃ text, (invalidArgsErr c m : Event V) =
         .sent (.err "org.freedesktop.DBus.Error.InvalidArgs".toList c.serial c.sender text)) := by
-  rw [eventsOf_run, callEvents_eq env ex ops k (hwf k) c b hk]
+  rw [eventsOf_run, callEvents_eq env ex ops k c b hk]
   have n1 : Gen.Dispatch.unknownObject.1 = "org.freedesktop.DBus.Error.UnknownObject" := by decide
   have n2 : Gen.Dispatch.unknownMethod.1 = "org.freedesktop.DBus.Error.UnknownMethod" := by decide
   have n3 : Gen.Dispatch.invalidArgs.1 = "org.freedesktop.DBus.Error.InvalidArgs" := by decide
@@ -225,7 +225,7 @@ name is formed from the exception `executeMethod` raises, `NotImplementedError`,
 naming rule (`org.txdbus.PythonException.NotImplementedError` when the validator accepts that
 name), with an empty text (as `send_error` sends it); a no-reply call gets nothing. -/
 theorem unbound_reply (env : Env V) (ht : TextTotal env) (ex : Exports) (ops : List (Op V))
-    (hwf : HistoryNamed ex ops) (k : Nat) (c : Call V) (b : Nat → Outcome V)
+    (k : Nat) (c : Call V) (b : Nat → Outcome V)
     (hk : ops[k]? = some (.call c b))
     (hh : handledByHandler (exportsAt ex ops k) c = false)
     (o : Obj) (i : Iface) (m : Method)
@@ -244,7 +244,7 @@ theorem unbound_reply (env : Env V) (ht : TextTotal env) (ex : Exports) (ops : L
     obtain ⟨⟨h1, h2⟩, h3⟩ := hh
     unfold verdict
     simp [h1, h2, h3, ho, ha, hs, hb]
-  have hce := callEvents_eq env ex ops k (hwf k) c b hk
+  have hce := callEvents_eq env ex ops k c b hk
   rw [hv] at hce
   simp only [callInv, callReplies, expectedCall, laterEvents, callPending, List.nil_append,
     List.append_nil] at hce
@@ -272,28 +272,28 @@ theorem unbound_reply (env : Env V) (ht : TextTotal env) (ex : Exports) (ops : L
 
 /-- A returned value - now, or as the eventual result of the returned Deferred - that encodes
 under the declared return signature is sent as a method return under that signature. -/
-theorem result_encoding (env : Env V) (ex : Exports) (ops : List (Op V)) (hwf : HistoryNamed ex ops)
+theorem result_encoding (env : Env V) (ex : Exports) (ops : List (Op V))
     (k : Nat) (c : Call V) (b : Nat → Outcome V) (hk : ops[k]? = some (.call c b))
     (he : c.expectReply = true) (f : Func) (m : Method) (hv : verdict (exportsAt ex ops k) c = .run f m)
     (r : Ret V) (hres : resultOf ops k (b f.id) = some (.value r))
     (henc : env.encErr m.sigOut (replyBody env.ofSeq m.nret r) = none) :
     replies (eventsOf k (run env ex ops).2) =
       [.ret c.serial c.sender (some m.sigOut) (.vals (replyBody env.ofSeq m.nret r))] := by
-  rw [eventsOf_run, replies_run env ex ops k (hwf k) c b hk f m hv he, hres]
+  rw [eventsOf_run, replies_run env ex ops k c b hk f m hv he, hres]
   simp only [fire, sendReply_eq, pendingOf, henc]
   simp [replies]
 
 /-- A value that does not encode under the declared signature becomes exactly one error reply,
 named after the encoder's exception by the same rule as any other exception. -/
 theorem unencodable_value_one_error (env : Env V) (ht : TextTotal env) (ex : Exports)
-    (ops : List (Op V)) (hwf : HistoryNamed ex ops)
+    (ops : List (Op V))
     (k : Nat) (c : Call V) (b : Nat → Outcome V) (hk : ops[k]? = some (.call c b))
     (he : c.expectReply = true) (f : Func) (m : Method) (hv : verdict (exportsAt ex ops k) c = .run f m)
     (r : Ret V) (hres : resultOf ops k (b f.id) = some (.value r))
     (e : Exc) (henc : env.encErr m.sigOut (replyBody env.ofSeq m.nret r) = some e) :
     ∃ t, replies (eventsOf k (run env ex ops).2) =
       [.err (errorName env.validErr e) c.serial c.sender t] := by
-  rw [eventsOf_run, replies_run env ex ops k (hwf k) c b hk f m hv he, hres]
+  rw [eventsOf_run, replies_run env ex ops k c b hk f m hv he, hres]
   simp only [fire, sendReply_eq, pendingOf, henc, sendError_eq]
   have := ht (errorText env.validErr e)
   cases h : env.textFix (errorText env.validErr e) with
@@ -307,7 +307,7 @@ preceded by a notice when the name was rejected) as `send_error` can send it; fo
 code and a name that is valid the message is the exception text itself whenever it contains no
 NUL. -/
 theorem error_reply_name (env : Env V) (ht : TextTotal env) (ex : Exports)
-    (ops : List (Op V)) (hwf : HistoryNamed ex ops)
+    (ops : List (Op V))
     (k : Nat) (c : Call V) (b : Nat → Outcome V) (hk : ops[k]? = some (.call c b))
     (he : c.expectReply = true) (f : Func) (m : Method) (hv : verdict (exportsAt ex ops k) c = .run f m)
     (e : Exc) (hres : resultOf ops k (b f.id) = some (.fail e)) :
@@ -316,7 +316,7 @@ theorem error_reply_name (env : Env V) (ht : TextTotal env) (ex : Exports)
         [.err (errorName env.validErr e) c.serial c.sender t] ∧
       (env.textFix = fixRepaired → errorName env.validErr e ≠ invalidErrorName →
         '\x00' ∉ e.text → t = e.text) := by
-  rw [eventsOf_run, replies_run env ex ops k (hwf k) c b hk f m hv he, hres]
+  rw [eventsOf_run, replies_run env ex ops k c b hk f m hv he, hres]
   simp only [fire, pendingOf, sendError_eq]
   have := ht (errorText env.validErr e)
   cases h : env.textFix (errorText env.validErr e) with
@@ -482,7 +482,7 @@ there would be answered UnknownObject, `lookup_failure_reply`), and yet the repl
 are exactly what `send_reply` / `send_error` make of the resolution - exactly one, addressed to
 the caller with the call's serial - and user code ran exactly once, at the time of the call. -/
 theorem deferred_after_unexport_one_reply (env : Env V) (ht : TextTotal env) (ex : Exports)
-    (ops : List (Op V)) (hwf : HistoryNamed ex ops) (k j l : Nat) (c : Call V) (b : Nat → Outcome V)
+    (ops : List (Op V)) (k j l : Nat) (c : Call V) (b : Nat → Outcome V)
     (hk : ops[k]? = some (.call c b)) (he : c.expectReply = true)
     (f : Func) (m : Method) (hv : verdict (exportsAt ex ops k) c = .run f m)
     (hd : b f.id = .deferred)
@@ -498,11 +498,11 @@ theorem deferred_after_unexport_one_reply (env : Env V) (ht : TextTotal env) (ex
     rw [hd]
     exact firstResolve_drop_at ops k l res (by omega) hl hfirst
   have hrep : replies (eventsOf k (run env ex ops).2) = replies (fire env (pendingOf k c m) res) := by
-    rw [eventsOf_run, replies_run env ex ops k (hwf k) c b hk f m hv he, hres]
+    rw [eventsOf_run, replies_run env ex ops k c b hk f m hv he, hres]
   refine ⟨exportsAt_after_unexport ex ops j c.path hu, hrep, ?_, ?_, ?_⟩
   · rw [hrep]; exact (fire_one env ht (pendingOf k c m) res).replies_length
   · rw [hrep]; exact (fire_one env ht (pendingOf k c m) res).replyish.addressed
-  · rw [eventsOf_run, invocations_callEvents env ex ops k (hwf k) c b hk, hv]; rfl
+  · rw [eventsOf_run, invocations_callEvents env ex ops k c b hk, hv]; rfl
 
 /-- Witness for `deferred_after_unexport_one_reply` (decide): the call runs user code and gets a
 Deferred, `/a` is unexported, a second call to `/a` is answered UnknownObject, then the Deferred of
@@ -557,7 +557,7 @@ theorem isPair_unique (c : Call V) (p q : Str × Str) (hpq : p ≠ q) (hp : isPa
   `org.freedesktop.DBus.Error.Failed` carrying the exception text.
 In each case the events of the call are exactly that one message (no user code runs), carrying the
 call's serial and addressed to its sender. -/
-theorem builtin_reply (env : Env V) (ex : Exports) (ops : List (Op V)) (hwf : HistoryNamed ex ops)
+theorem builtin_reply (env : Env V) (ex : Exports) (ops : List (Op V))
     (k : Nat) (c : Call V) (b : Nat → Outcome V) (hk : ops[k]? = some (.call c b)) :
     (isPair c peerPair = true →
       eventsOf k (run env ex ops).2 = [.sent (.ret c.serial c.sender none .empty)]) ∧
@@ -575,7 +575,7 @@ theorem builtin_reply (env : Env V) (ex : Exports) (ops : List (Op V)) (hwf : Hi
       eventsOf k (run env ex ops).2 = [managedFailedErr c e] ∧
       ∃ text, (managedFailedErr c e : Event V) =
         .sent (.err "org.freedesktop.DBus.Error.Failed".toList c.serial c.sender text)) := by
-  rw [eventsOf_run, callEvents_eq env ex ops k (hwf k) c b hk]
+  rw [eventsOf_run, callEvents_eq env ex ops k c b hk]
   obtain ⟨d1, d2, d3⟩ := pairs_distinct
   refine ⟨?_, ?_, ?_, ?_, ?_, ?_⟩
   · intro h1
@@ -673,7 +673,7 @@ and value, or the error category), the reply part of `Props.opSet` for Set (C17'
 The body of the reply is therefore no longer a parameter of the C10 model; with
 `reply_addressing` / `exactly_one_if_expected` the reply carries the call's serial and sender. -/
 theorem properties_call_reply_is_c17 (env : Env PV) (L : Lib) (henv : LibEnvOK env L) (st : Props.St)
-    (ex : Exports) (ops : List (Op PV)) (hwf : HistoryNamed ex ops) (k : Nat) (c : Call PV)
+    (ex : Exports) (ops : List (Op PV)) (k : Nat) (c : Call PV)
     (user : Nat → Outcome PV) (hk : ops[k]? = some (.call c (libBehav L st c user)))
     (he : c.expectReply = true) (o : Obj) (ho : exported (exportsAt ex ops k) c.path = some o)
     (hserve : LibraryServes o) (hi : c.iface = some propsName) :
@@ -689,21 +689,21 @@ theorem properties_call_reply_is_c17 (env : Env PV) (L : Lib) (henv : LibEnvOK e
   obtain ⟨s1, s2, s3⟩ := hserve
   refine ⟨?_, ?_, ?_⟩
   · intro i p hm hsig hb
-    obtain ⟨m, hso, hr⟩ := replies_props_served env ex ops hwf k c _ hk he o ho _ _ _ _ s1 hi hm hsig L _
+    obtain ⟨m, hso, hr⟩ := replies_props_served env ex ops k c _ hk he o ho _ _ _ _ s1 hi hm hsig L _
       (libBehav_get L st c user i p hb)
     rw [hr]
     exact fireOutcome_obs env L henv _ _ (opGet_isReply ..) (by
       show sigFits m.sigOut _
       rw [hso]; exact opGet_sigFits ..)
   · intro i p v hm hsig hb
-    obtain ⟨m, hso, hr⟩ := replies_props_served env ex ops hwf k c _ hk he o ho _ _ _ _ s2 hi hm hsig L _
+    obtain ⟨m, hso, hr⟩ := replies_props_served env ex ops k c _ hk he o ho _ _ _ _ s2 hi hm hsig L _
       (libBehav_set L st c user i p v hb)
     rw [hr]
     exact fireOutcome_obs env L henv _ _ (opSet_isReply ..) (by
       show sigFits m.sigOut _
       rw [hso]; exact opSet_sigFits ..)
   · intro i hm hsig hb
-    obtain ⟨m, hso, hr⟩ := replies_props_served env ex ops hwf k c _ hk he o ho _ _ _ _ s3 hi hm hsig L _
+    obtain ⟨m, hso, hr⟩ := replies_props_served env ex ops k c _ hk he o ho _ _ _ _ s3 hi hm hsig L _
       (libBehav_getAll L st c user i hb)
     rw [hr]
     exact fireOutcome_obs env L henv _ _ (opGetAll_isReply ..) (by
@@ -717,7 +717,7 @@ the reply is exactly the error `org.txdbus.PythonException.Exception` with the c
 `builtin_table_shape`), carrying the call's serial and sender.  (Set: `Invalid Property`,
 `Property is not Writeable`; GetAll: `Invalid Interface` - same proof, same table.) -/
 theorem properties_get_error_exact (env : Env PV) (L : Lib) (henv : LibEnvOK env L) (st : Props.St)
-    (ex : Exports) (ops : List (Op PV)) (hwf : HistoryNamed ex ops) (k : Nat) (c : Call PV)
+    (ex : Exports) (ops : List (Op PV)) (k : Nat) (c : Call PV)
     (user : Nat → Outcome PV) (hk : ops[k]? = some (.call c (libBehav L st c user)))
     (he : c.expectReply = true) (o : Obj) (ho : exported (exportsAt ex ops k) c.path = some o)
     (hserve : LibraryServes o) (hi : c.iface = some propsName)
@@ -729,7 +729,7 @@ theorem properties_get_error_exact (env : Env PV) (L : Lib) (henv : LibEnvOK env
     (Props.opGet L.cfg L.W st L.o i p = .err .notReadable →
       replies (eventsOf k (run env ex ops).2) =
         [.err "org.txdbus.PythonException.Exception".toList c.serial c.sender "Property is not readable".toList]) := by
-  obtain ⟨m, _, hr⟩ := replies_props_served env ex ops hwf k c _ hk he o ho _ _ _ _ hserve.1 hi hm hsig L _
+  obtain ⟨m, _, hr⟩ := replies_props_served env ex ops k c _ hk he o ho _ _ _ _ hserve.1 hi hm hsig L _
     (libBehav_get L st c user i p hb)
   obtain ⟨n1, n2, _, _⟩ := table_texts_no_nul
   constructor
@@ -749,7 +749,7 @@ arrives the one event is the UnknownObject error - which C17 observes as `err un
 answer of C17's own `step` for an object that was never exported; with a signature other than the
 member's declared one (`ss` / `ssv` / `s`) the one event is the InvalidArgs error and the library
 function does not run (nothing is read or written). -/
-theorem properties_lookup_errors (env : Env PV) (ex : Exports) (ops : List (Op PV)) (hwf : HistoryNamed ex ops)
+theorem properties_lookup_errors (env : Env PV) (ex : Exports) (ops : List (Op PV))
     (k : Nat) (c : Call PV) (b : Nat → Outcome PV) (hk : ops[k]? = some (.call c b))
     (hi : c.iface = some propsName) :
     (exported (exportsAt ex ops k) c.path = none →
@@ -764,7 +764,7 @@ theorem properties_lookup_errors (env : Env PV) (ex : Exports) (ops : List (Op P
   have hh : handledByHandler (exportsAt ex ops k) c = false := by
     simp [handledByHandler, isPair_false_of_iface c _ _ hi n1, isPair_false_of_iface c _ _ hi n2,
       isPair_false_of_iface c _ _ hi n3]
-  obtain ⟨l1, _, l3⟩ := lookup_failure_reply env ex ops hwf k c b hk hh
+  obtain ⟨l1, _, l3⟩ := lookup_failure_reply env ex ops k c b hk hh
   constructor
   · intro ho
     obtain ⟨h1, text, h2⟩ := l1 ho
